@@ -96,9 +96,18 @@ REQUIRED_ASSIGN = {"epsilon <= 2 * machine_epsilon": "machine_epsilon = np.finfo
 TRANSPARENT_IFS = {"candidates is not None", "measure is not None"}
 
 
+ALLOWED_DECORATORS = ("classmethod", "staticmethod", "copy_docstring(", "abc.abstractmethod")
+
+
 def _fn_ast(fn):
     src = textwrap.dedent(inspect.getsource(fn))
     node = ast.parse(src).body[0]
+    # a decorator such as functools.lru_cache / cached_property changes WHEN (and on which arguments) the body runs: the
+    # extracted chain would then no longer describe what a call does
+    for d in node.decorator_list:
+        txt = ast.unparse(d)
+        if not txt.startswith(ALLOWED_DECORATORS):
+            raise Untranslatable(f"{fn.__qualname__} is wrapped by @{txt}: the checks may not run on every call")
     return node
 
 
